@@ -287,6 +287,7 @@ let parse_kins (l : Stdlib.String.t) : kins =
   | ["call"; t] -> KCall (zs t)
   | ["test8"; r] -> KTest8 (zs r)
   | ["cmp64"; r; c] -> KCmp64 (zs r, zs c)
+  | ["cmpcell"; k] -> KCmpCell (zs k)
   | ["je"] -> KJe | ["jne"] -> KJne
   | ["store"; k; r] -> KStore (zs k, zs r)
   | _ -> failwith ("bad call-template instruction " ^ l)
@@ -300,6 +301,17 @@ let run_x86call = function
        else (match yrun ks ksym0 with None -> "bad symbolic-evaluation-rejected" | Some _ -> "bad mismatch")
      | _ -> "ERR need exactly one instruction")
   | _ -> "ERR bad x86call line"
+
+(* x86br|<one-instruction bytecode program text>|<code> -> ok | bad *)
+let run_x86br = function
+  | [bc; code] ->
+    let p = parse_bc (toks_of bc) in
+    (match p.bp_code with
+     | [i] ->
+       let ks = List.map parse_kins (List.filter (fun x -> String.trim x <> "") (split_on ';' code)) in
+       if br_ok i ks then "ok" else "bad mismatch"
+     | _ -> "ERR need exactly one instruction")
+  | _ -> "ERR bad x86br line"
 
 (* parse|w|cp,cp,cp,... *)
 let run_parse = function
@@ -679,7 +691,7 @@ let run_bcmem = function
      | _ -> "notdone")
   | _ -> "ERR bad bcmem line"
 
-let handlers : (Stdlib.String.t * (Stdlib.String.t list -> Stdlib.String.t)) list ref = ref [ ("cell", run_cell); ("bf", run_bf); ("inplace", run_inplace); ("ir", run_ir); ("bc", run_bc); ("x86form", run_x86form); ("x86call", run_x86call); ("bcreach", run_bcreach); ("parse", run_parse); ("bfbig", run_bfbig); ("bcmem", run_bcmem); ("formsnf", run_formsnf); ("shapes", run_shapes); ("cli", run_cli); ("bcwf", run_bcwf); ("bfx", run_bfx); ("expr", run_expr); ("svec", run_svec); ("tape", run_tape); ("rawproto", run_rawproto); ("bfcycle", run_bfcycle); ("irbig", run_irbig) ]
+let handlers : (Stdlib.String.t * (Stdlib.String.t list -> Stdlib.String.t)) list ref = ref [ ("cell", run_cell); ("bf", run_bf); ("inplace", run_inplace); ("ir", run_ir); ("bc", run_bc); ("x86form", run_x86form); ("x86call", run_x86call); ("x86br", run_x86br); ("bcreach", run_bcreach); ("parse", run_parse); ("bfbig", run_bfbig); ("bcmem", run_bcmem); ("formsnf", run_formsnf); ("shapes", run_shapes); ("cli", run_cli); ("bcwf", run_bcwf); ("bfx", run_bfx); ("expr", run_expr); ("svec", run_svec); ("tape", run_tape); ("rawproto", run_rawproto); ("bfcycle", run_bfcycle); ("irbig", run_irbig) ]
 
 let () =
   (try
